@@ -299,6 +299,9 @@ def make_cases(tier, rnd):
             cases.append(dict(fn="add_sum_n_weighted_bits", widths=[n], weights=ws, basis="enum:AIG", host=hk, history="remove-and-call-again"))
             cases.append(dict(fn="add_sum_two_numbers", widths=[n, n], host=hk, history="remove-and-call-again"))
         cases.append(dict(fn="add_sum_two_numbers", widths=[n, n], host="repeat2", alias=True))
+        if n >= 3:
+            cases.append(dict(fn="add_sum_two_numbers", widths=[n, n], big_endian=bool(n % 2), host=("rotated2", "reversed2", "other-repeats2")[n % 3]))
+            cases.append(dict(fn="add_sum_two_numbers_with_shift", widths=[n, n], shift=1, host=("reversed2", "other-repeats2", "rotated2")[n % 3]))
         cases.append(dict(fn="add_sum_two_numbers_with_shift", widths=[n, n], shift=1, host="repeat2", alias=True))
     # sparse weight vectors: a run of levels holding three bits each keeps the compression in its least economical regime
     for profile in ([6, 3, 3, 3, 3, 3, 3, 1], [6, 3, 3, 3, 3, 3, 3, 3, 3, 3, 1], [6, 7, 1, 3, 7, 7, 4, 1, 1], [6, 3, 3, 3, 3, 1], [5, 3, 3, 3, 3, 3, 2]):
